@@ -2359,6 +2359,14 @@ def _mk_hschema(variant, lo):
                 out = out & (groups[k] >= lo).all()
             return out
         return pa.DataFrameSchema({"a1": pa.Column(float, Check(gfn, groupby="k", groups=["x", "y"]), nullable=False), "k": pa.Column(str)}, name="S")
+    if variant == "datetime_stats":
+        # a date-time column whose check carries a LIST of timestamps: the serialisers and the statistics code have to convert each
+        # element (the frame model has no date-time cells: histories of this variant validate frames that lack the column)
+        import pandas as _pd
+
+        return pa.DataFrameSchema({"t": pa.Column("datetime64[ns]", Check.isin([_pd.Timestamp("2020-01-01"), _pd.Timestamp("2021-06-01")])),
+                                   "d": pa.Column("timedelta64[ns]", Check.isin([_pd.Timedelta(0), _pd.Timedelta(days=2)]), required=False),
+                                   "b": pa.Column(int, Check.isin([1, 2, 3]))}, name="S")
     if variant == "mi_dupnames":
         return pa.MultiIndex([pa.Index(int, Check.ge(lo), name="id"), pa.Index(int, name="id")])
     raise KeyError(variant)
@@ -2463,7 +2471,8 @@ def history_case(v, variant, k, N, ops=None, fixed=()):
 
 def _hkinds(variant):
     return {"regex": [("a1", "float"), ("b", "int")], "dtype": [("a1", "float")], "plain": [("a1", "float"), ("b", "int")],
-            "groupby": [("a1", "float", False), ("k", "str", False, ["x", "y", "x", "y"])], "mi_dupnames": [("a1", "float")]}[variant]
+            "groupby": [("a1", "float", False), ("k", "str", False, ["x", "y", "x", "y"])], "mi_dupnames": [("a1", "float")],
+            "datetime_stats": [("b", "int")]}[variant]
 
 
 # ------------------------------------------------------------------ serialisation round trip (C12)
